@@ -710,6 +710,10 @@ func c03CompareAtReturns(c *Ctx, rule string, f *ssa.Function, env *feEnv, ops [
 func c03Special(c *Ctx) {
 	c03ZForAffine(c)
 	c03OnCurveZero(c)
+	if n := narrowShift(c, "K-NARROW-shift", []string{"sm2"}); n >= 0 {
+		c.Holds("K-NARROW-shift", "sm2", "no 8/16-bit value is shifted left by its width or more", fmt.Sprintf("%d narrow left shifts inspected", n), token.NoPos)
+	}
+	c03Wrappers(c)
 	for _, name := range []string{"sm2P256PointAdd", "sm2P256PointSub"} {
 		f := c.Fn("sm2", name)
 		if f == nil {
@@ -1328,5 +1332,69 @@ func c03OnCurveZero(c *Ctx) {
 			})
 		})
 		c.Check(bad == token.NoPos, rule, fname(f), "a zero "+who+" coordinate is not rejected out of hand", "", "with "+who+" = 0 a constant `return false` is reachable before the curve equation is evaluated: the curve points with a zero coordinate, e.g. (0, ±sqrt(b)), are reported as off the curve", bad)
+	}
+}
+
+// c03Wrappers: each elliptic.Curve method is one conversion into the field representation, ONE call of its point routine
+// and the affine conversion of that routine's output — nothing else decides the result. A shortcut grafted in front
+// (Add answering Double whenever the abscissas agree, ScalarMult routing "generator-looking" points to the comb,
+// IsOnCurve answering true for (0,0)) changes the function on exactly the inputs no test tries. Decided as: the set of
+// repository functions a wrapper calls is within its allowed set, every non-constant result comes from the affine
+// conversion, and IsOnCurve has no constant-true result.
+func c03Wrappers(c *Ctx) {
+	rule := "T-C03-special"
+	allowed := map[string][]string{
+		"Add":            {"zForAffine", "sm2P256FromBig", "sm2P256PointAdd", "sm2P256ToAffine"},
+		"Double":         {"zForAffine", "sm2P256FromBig", "sm2P256PointDouble", "sm2P256ToAffine"},
+		"ScalarMult":     {"sm2GenrateWNaf", "WNafReversed", "sm2P256FromBig", "sm2P256ScalarMult", "sm2P256ToAffine"},
+		"ScalarBaseMult": {"sm2P256GetScalar", "sm2P256ScalarBaseMult", "sm2P256ToAffine"},
+	}
+	for name, list := range allowed {
+		f := c.Fn("sm2", "(sm2P256Curve)."+name)
+		if f == nil {
+			f = c.Fn("sm2", "sm2P256Curve."+name)
+		}
+		if f == nil {
+			c.Missing(rule, "sm2.sm2P256Curve."+name, "method", "not found")
+			continue
+		}
+		ok := map[string]bool{}
+		for _, n := range list {
+			ok[n] = true
+		}
+		var extra []string
+		for _, ci := range allCalls(f) {
+			sc := ci.Common().StaticCallee()
+			if sc == nil {
+				if ci.Common().IsInvoke() && (ci.Common().Method.Name() == "Double" || ci.Common().Method.Name() == "Add" || ci.Common().Method.Name() == "ScalarBaseMult" || ci.Common().Method.Name() == "ScalarMult") {
+					extra = append(extra, "interface call "+ci.Common().Method.Name())
+				}
+				continue
+			}
+			if !inRepo(sc) || ok[sc.Name()] {
+				continue
+			}
+			if c.P.isNewFunction(fname(sc)) {
+				continue // an extracted helper: judged undecided by the formula rules
+			}
+			extra = append(extra, fname(sc))
+		}
+		sort.Strings(extra)
+		c.Check(len(extra) == 0, rule, fname(f), "the result comes from its own point routine only", strings.Join(list, ", "), "the method also calls "+strings.Join(dedup(extra), ", ")+": a shortcut through another curve operation decides the result for some inputs (e.g. Add answering Double(P) whenever x1 == x2, which is also true for P + (-P); ScalarMult sending every point with the generator's abscissa to the base-point comb, which is also true for -G)", f.Pos())
+	}
+	fo := c.Fn("sm2", "(sm2P256Curve).IsOnCurve")
+	if fo == nil {
+		fo = c.Fn("sm2", "sm2P256Curve.IsOnCurve")
+	}
+	if f := fo; f != nil {
+		bad := token.NoPos
+		for _, b := range f.Blocks {
+			if ret, okR := b.Instrs[len(b.Instrs)-1].(*ssa.Return); okR && len(ret.Results) == 1 {
+				if v, isC := constBool(ret.Results[0]); isC && v {
+					bad = ret.Pos()
+				}
+			}
+		}
+		c.Check(bad == token.NoPos, "P-C03-formulas", fname(f), "no coordinate pair is accepted without the curve equation", "", "IsOnCurve has a constant `return true`: some pair (e.g. (0,0), which only stands for the point at infinity) is reported as a curve point although it does not satisfy y^2 = x^3 + ax + b", bad)
 	}
 }
